@@ -62,6 +62,9 @@ THEOREMS = [
     'CpProofs.C05.C05_effective_maxbytes',
     'CpProofs.C05.C05_configured_limit_enforced',
     'CpProofs.C05.C05_server_limit',
+    'CpProofs.C05.C05_server_limit_own',
+    'CpProofs.C05.C05_server_refuses_iff',
+    'CpProofs.C05.C05_server_no_limit',
     'CpProofs.C05.trailerLoop_wellformed',
     'CpProofs.C05.C05_trailer_once_intact',
     'CpProofs.C05.C05_no_trailer_untouched',
@@ -101,7 +104,8 @@ LEVEL_TEXT = ('Proved in Lean, for every body, declared length (exact/shorter/lo
               'comma-separated headers joined in wire order, otherwise last wins, MaxSizeExceeded -> 413) and - for the '
               'repaired code - consumed once, so the bytes behind it stay on the connection after every history '
               '(C05_history_trailer_intact); for the code that re-reads the trailer on every finish() the statement is '
-              'proved false (F27 witness). Correspondence only: cheroot itself (ChunkedRFile is exercised, not '
+              'proved false (F27 witness); each HTTP server is given its own adapter\'s limits whatever the other '
+              'adapters (global server included) say (C05_server_limit_own). Correspondence only: cheroot itself (ChunkedRFile is exercised, not '
               'modelled), the merge of body params into request.params (C03).')
 LEVEL_NOTE = ('Trusted: Lean kernel, the hand models lean/CpModel/Reader.lean, ReaderSink.lean, ReaderProcess.lean as '
               'validated by the differential run (SizedReader directly, request.body through in-process WSGI with '
@@ -132,7 +136,11 @@ RULE = ('random op histories (1..14 ops over read/read(n)/readline/readline(n)/r
         'k-th next read, the application reads on), each run on SizedReader directly or through '
         'in-process WSGI; second part: Content-Length texts x Transfer-Encoding; requests (method x '
         'methods_with_bodies / process_request_body / request.body.maxbytes|bufsize|length at three config levels x '
-        'Content-Length absent/empty/valid/invalid x Transfer-Encoding x Trailer x Content-Type); finish() over trailer '
+        'Content-Length absent/empty/valid/invalid x Transfer-Encoding x Trailer x Content-Type); several HTTP server '
+        'adapters (global cherrypy.server via server.<key>, additional ones via server.<name>.<key> or constructed) with '
+        'different max_request_body_size / max_request_header_size: the limits of the CPWSGIServer each builds (unbound), '
+        'and per run one case with real cheroot servers on ephemeral ports (declared and chunked bodies around each '
+        'server\'s limit); finish() over trailer '
         'blocks (continuation lines, repeated / comma-separated names, malformed lines, missing blank line, failures '
         'while fetching) followed by a pipelined request; histories over chunked bodies with a trailer (stand-in stream '
         'and cheroot ChunkedRFile); urlencoded form bodies with declared length exact/shorter/0; plus (thorough) '
@@ -1049,6 +1057,7 @@ def _run(ctx):
         cases = [gen_case(ctx.rng, big=(i % 60 == 59)) for i in range(3500)]
         check_cases(ctx, cases)
         c05_proc.check_cases(ctx, [c05_proc.gen_case(ctx.rng) for _ in range(2500)])
+        c05_proc.check_cases(ctx, [c05_proc.gen_srvlive(ctx.rng)])
     else:
         nproc = 12
         seeds = [ctx.rng.randrange(1 << 30) for _ in range(nproc * 4)]
@@ -1056,6 +1065,7 @@ def _run(ctx):
             raise common.HarnessError('driver unavailable in thorough tier')
         for res in common.parallel_map(_worker, [(s, 4000, 400) for s in seeds], procs=nproc):
             merge_worker(ctx, res)
+        c05_proc.check_cases(ctx, [c05_proc.gen_srvlive(ctx.rng) for _ in range(4)])
         small = list(enum_small())
         check_cases(ctx, small, stats=False)
         ctx.extra['exhaustive_small_scope'] = len(small)
